@@ -85,15 +85,18 @@ func New(scrapeManager *scrape.Manager, promRegistry prometheus.Registerer, log 
 // if target is never explored, it will be send to explore
 func (e *Explore) Get(hash uint64) *target.ScrapeStatus {
 	e.targetsLock.Lock()
-	defer e.targetsLock.Unlock()
-
 	r := e.targets[hash]
 	if r == nil {
+		e.targetsLock.Unlock()
 		return nil
 	}
 
-	if !r.exploring {
-		r.exploring = true
+	first := !r.exploring
+	r.exploring = true
+	e.targetsLock.Unlock()
+
+	// never wait for room in the queue while holding the lock: the workers need it for every entry they take
+	if first {
 		e.needExplore <- r
 	}
 
@@ -185,8 +188,9 @@ func (e *Explore) Run(ctx context.Context, con int) error {
 						go func() {
 							time.Sleep(e.retryInterval)
 							e.targetsLock.Lock()
-							defer e.targetsLock.Unlock()
-							if e.targets[hash] == tar {
+							still := e.targets[hash] == tar
+							e.targetsLock.Unlock()
+							if still {
 								e.needExplore <- tar
 							}
 						}()
